@@ -30,6 +30,7 @@ type Addr struct {
 	Elem types.Type // type of the base object
 	Path []PathElem
 	ReadOnly bool
+	GlobalArr string // package-level variable: its own heap array (indexed by the variable's id)
 }
 
 type Closure struct {
